@@ -5,6 +5,7 @@ package main
 import (
 	"fmt"
 	"go/ast"
+	"go/constant"
 	"go/token"
 	"go/types"
 	"os"
@@ -53,6 +54,8 @@ func init() {
 		Quick: []ruleDef{
 			{"POS-STAMP", 2, rulePosStamp},
 			{"POS-STORE", 3, rulePosStore},
+			{"POS-LAYOUT", 4, rulePosLayout},
+			{"POS-SOURCE", 1, rulePosSource},
 			{"POS-FUSED", 15, rulePosFused},
 			{"FRM-PAIR", 6, ruleFrmPair},
 			{"BT-ORDER", 2, ruleBtOrder},
@@ -2701,5 +2704,197 @@ func ruleParInitName(c *Ctx, r *R) {
 	})
 	if n == 0 {
 		r.undecided("init node", c.Pos(fd), "funcNud does not make an init node")
+	}
+}
+
+// POS-LAYOUT: a position is packed by newPos and unpacked by pos.info and by pos.line (the
+// shortcut the optimiser uses to keep a selector and its call on different lines apart).
+// The three agree on the layout: evaluated on constants, for sample (line, column) pairs and
+// sample name indexes, info(newPos(..)) gives back every component and line(newPos(..)) the
+// line.  (Values beyond the field widths are a stated limit of the format, not sampled.)
+func rulePosLayout(c *Ctx, r *R) {
+	np, info, line := c.Func("newPos"), c.Func("pos.info"), c.Func("pos.line")
+	if np == nil || info == nil || line == nil {
+		r.undecided("layout", "-", "newPos / pos.info / pos.line not found")
+		return
+	}
+	// evalSeq: run the top-level assignments of fd under env; an integer local whose
+	// initialiser is not constant (l.Index(..)) takes the sample given for its name
+	evalSeq := func(fd *ast.FuncDecl, env map[types.Object]constant.Value, samples map[string]int64) (ret constant.Value, ok bool) {
+		old := evalEnv
+		evalEnv = env
+		defer func() { evalEnv = old }()
+		for _, st := range fd.Body.List {
+			switch x := st.(type) {
+			case *ast.AssignStmt:
+				if len(x.Lhs) != len(x.Rhs) {
+					return nil, false
+				}
+				for i, l := range x.Lhs {
+					id, isId := l.(*ast.Ident)
+					if !isId {
+						return nil, false
+					}
+					o := c.Info.Defs[id]
+					if o == nil {
+						o = c.Info.Uses[id]
+					}
+					if v, ok := c.evalWith(x.Rhs[i], nil, nil); ok {
+						env[o] = v
+					} else if s, has := samples[id.Name]; has {
+						env[o] = constant.MakeInt64(s)
+					} else if b, isB := o.Type().Underlying().(*types.Basic); isB && b.Info()&types.IsString != 0 {
+						env[o] = constant.MakeString("?")
+					} else {
+						return nil, false
+					}
+				}
+			case *ast.ReturnStmt:
+				if len(x.Results) == 1 {
+					v, ok := c.evalWith(x.Results[0], nil, nil)
+					return v, ok
+				}
+				return nil, true
+			default:
+				return nil, false
+			}
+		}
+		return nil, true
+	}
+	params := func(fd *ast.FuncDecl) map[string]types.Object {
+		out := map[string]types.Object{}
+		if fd.Recv != nil {
+			for _, f := range fd.Recv.List {
+				for _, nm := range f.Names {
+					out[nm.Name] = c.Info.Defs[nm]
+				}
+			}
+		}
+		for _, f := range fd.Type.Params.List {
+			for _, nm := range f.Names {
+				out[nm.Name] = c.Info.Defs[nm]
+			}
+		}
+		if fd.Type.Results != nil {
+			for _, f := range fd.Type.Results.List {
+				for _, nm := range f.Names {
+					out[nm.Name] = c.Info.Defs[nm]
+				}
+			}
+		}
+		return out
+	}
+	npP, infoP, lineP := params(np), params(info), params(line)
+	samples := [][2]int64{{1, 1}, {14, 3}, {15, 200}, {16, 1}, {300, 7}, {4097, 1}, {65535, 65535}}
+	for _, s := range samples {
+		key := fmt.Sprintf("line %d col %d", s[0], s[1])
+		env := map[types.Object]constant.Value{}
+		if npP["line"] == nil || npP["column"] == nil {
+			r.undecided(key, c.Pos(np), "newPos has no line / column parameters")
+			return
+		}
+		env[npP["line"]] = constant.MakeInt64(s[0])
+		env[npP["column"]] = constant.MakeInt64(s[1])
+		packed, ok := evalSeq(np, env, map[string]int64{"fileNameIdx": 7, "funcNameIdx": 9})
+		if !ok || packed == nil {
+			r.undecided(key, c.Pos(np), "cannot evaluate newPos on constants")
+			return
+		}
+		// pos.line
+		var recvName string
+		for n := range lineP {
+			recvName = n
+		}
+		lv, ok := evalSeq(line, map[types.Object]constant.Value{lineP[recvName]: packed}, nil)
+		if !ok || lv == nil {
+			r.undecided(key, c.Pos(line), "cannot evaluate pos.line on constants")
+			return
+		}
+		good := constant.Compare(lv, token.EQL, constant.MakeInt64(s[0]))
+		// pos.info
+		ienv := map[types.Object]constant.Value{}
+		for n, o := range infoP {
+			if n != "l" && n != "fileName" && n != "funcName" && n != "line" && n != "column" {
+				ienv[o] = packed
+			}
+		}
+		if _, ok := evalSeq(info, ienv, nil); !ok {
+			r.undecided(key, c.Pos(info), "cannot evaluate pos.info on constants")
+			return
+		}
+		infoOK := infoP["line"] != nil && infoP["column"] != nil && ienv[infoP["line"]] != nil && ienv[infoP["column"]] != nil &&
+			constant.Compare(ienv[infoP["line"]], token.EQL, constant.MakeInt64(s[0])) && constant.Compare(ienv[infoP["column"]], token.EQL, constant.MakeInt64(s[1]))
+		r.check(good && infoOK, key, c.Pos(line), "info and line read back what newPos packed",
+			fmt.Sprintf("newPos, pos.info and pos.line disagree on the layout of a position: for line %d column %d pos.line() gives %v and info gives line %v column %v — the optimiser's \"selector and call on the same line\" guard compares pos.line(), so `c.` newline `Close()` is folded into one instruction again and a nil receiver is reported on the line of the `(` with the optimiser on, the line of the `.` with it off", s[0], s[1], lv, ienv[infoP["line"]], ienv[infoP["column"]]))
+	}
+	// a component wider than its field does not spill into its neighbour (every component is
+	// masked when it is packed): a column beyond the field leaves the line alone
+	{
+		env := map[types.Object]constant.Value{npP["line"]: constant.MakeInt64(5), npP["column"]: constant.MakeInt64(1<<20 + 3)}
+		if packed, ok := evalSeq(np, env, map[string]int64{"fileNameIdx": 7, "funcNameIdx": 9}); ok && packed != nil {
+			var recvName string
+			for n := range lineP {
+				recvName = n
+			}
+			if lv, ok := evalSeq(line, map[types.Object]constant.Value{lineP[recvName]: packed}, nil); ok && lv != nil {
+				r.check(constant.Compare(lv, token.EQL, constant.MakeInt64(5)), "no spill from the column", c.Pos(np), "an over-wide column is cut, the line is untouched",
+					"newPos does not mask the column to its field: a failing operation far to the right on a very long line (column beyond the field) spills into the line bits and is reported on another line")
+			}
+		}
+	}
+}
+
+// POS-SOURCE: line and column numbers are those of the text the host handed over: the
+// tokenizer's scanner reads that text unchanged.  Trimming or otherwise rewriting the input
+// ahead of the scanner (strings.TrimSpace drops leading line breaks) shifts every reported
+// line.  Decided on tokenize: the reader given to Scanner.Init is built directly from the
+// function's text parameter.
+func rulePosSource(c *Ctx, r *R) {
+	fd := c.Func("tokenize")
+	if fd == nil {
+		r.undecided("tokenize", "-", "not found")
+		return
+	}
+	strParams := map[types.Object]bool{}
+	for _, f := range fd.Type.Params.List {
+		for _, nm := range f.Names {
+			if b, ok := c.Info.Defs[nm].Type().Underlying().(*types.Basic); ok && b.Info()&types.IsString != 0 {
+				strParams[c.Info.Defs[nm]] = true
+			}
+		}
+	}
+	n := 0
+	for _, h := range c.withHelpers(fd) {
+		ast.Inspect(h.Body, func(m ast.Node) bool {
+			call, ok := m.(*ast.CallExpr)
+			if !ok || !strings.HasSuffix(c.CalleeName(call), "Scanner.Init") || len(call.Args) != 1 {
+				return true
+			}
+			n++
+			good := false
+			if rd, ok := unparen(call.Args[0]).(*ast.CallExpr); ok && len(rd.Args) == 1 && (strings.HasSuffix(c.CalleeName(rd), "strings.NewReader") || strings.HasSuffix(c.CalleeName(rd), "bytes.NewBufferString")) {
+				arg := unparen(rd.Args[0])
+				if id, ok := arg.(*ast.Ident); ok {
+					if strParams[c.Obj(id)] && h == fd {
+						good = true
+					} else if def := c.singleDef(id); def != nil {
+						if did, ok := unparen(def).(*ast.Ident); ok && strParams[c.Obj(did)] {
+							good = true
+						}
+					} else if h != fd {
+						// a helper that is handed the text: its own string parameter
+						if v, ok := c.Obj(id).(*types.Var); ok && isParamOrRecv(c, h, v) {
+							good = true
+						}
+					}
+				}
+			}
+			r.check(good, "scanner reads the text unchanged", c.Pos(call), "Scanner.Init gets a reader over the input parameter itself",
+				"tokenize hands the scanner a rewritten copy of the source text ("+c.Src(call.Args[0])+"): positions are counted in that copy — after strings.TrimSpace every leading line break is gone and the failing line and every backtrace line of a script that starts with blank lines (a Go raw string opening with a newline) come out too low")
+			return true
+		})
+	}
+	if n == 0 {
+		r.undecided("scanner", c.Pos(fd), "no Scanner.Init call found in tokenize")
 	}
 }
